@@ -151,92 +151,81 @@ theorem selectCollectors_nodup (n2c : List (Name × Owner)) (names : List Name) 
     intro acc h
     unfold selectCollectors
     split
-    · split
-      · exact ih _ (setAdd_nodup h)
-      · exact ih _ h
+    · exact ih _ (setAdd_nodup h)
     · exact ih _ h
 
 theorem mem_selectCollectors (n2c : List (Name × Owner)) (names : List Name) (o : Owner) :
     ∀ acc : List Owner, o ∈ selectCollectors n2c names acc ↔
-      o ∈ acc ∨ ∃ n, n ∈ names ∧ n ≠ tiName ∧ dGet n n2c = some o := by
+      o ∈ acc ∨ ∃ n, n ∈ names ∧ dGet n n2c = some o := by
   induction names with
   | nil => intro acc; simp [selectCollectors]
   | cons n ns ih =>
     intro acc
     unfold selectCollectors
-    by_cases hn : n ≠ tiName
-    · rw [if_pos hn]
-      cases hg : dGet n n2c with
-      | none =>
-        simp only
-        rw [ih]
-        constructor
-        · rintro (h | ⟨m, hm, h1, h2⟩)
-          · exact Or.inl h
-          · exact Or.inr ⟨m, List.mem_cons_of_mem _ hm, h1, h2⟩
-        · rintro (h | ⟨m, hm, h1, h2⟩)
-          · exact Or.inl h
-          · rcases List.mem_cons.1 hm with rfl | hm
-            · rw [hg] at h2; cases h2
-            · exact Or.inr ⟨m, hm, h1, h2⟩
-      | some o' =>
-        simp only
-        rw [ih, mem_setAdd]
-        constructor
-        · rintro ((rfl | h) | ⟨m, hm, h1, h2⟩)
-          · exact Or.inr ⟨n, by simp, hn, hg⟩
-          · exact Or.inl h
-          · exact Or.inr ⟨m, List.mem_cons_of_mem _ hm, h1, h2⟩
-        · rintro (h | ⟨m, hm, h1, h2⟩)
-          · exact Or.inl (Or.inr h)
-          · rcases List.mem_cons.1 hm with rfl | hm
-            · rw [hg] at h2; cases h2; exact Or.inl (Or.inl rfl)
-            · exact Or.inr ⟨m, hm, h1, h2⟩
-    · rw [if_neg hn]
+    cases hg : dGet n n2c with
+    | none =>
+      simp only
       rw [ih]
-      have hn' : n = tiName := Classical.not_not.1 hn
       constructor
-      · rintro (h | ⟨m, hm, h1, h2⟩)
+      · rintro (h | ⟨m, hm, h2⟩)
         · exact Or.inl h
-        · exact Or.inr ⟨m, List.mem_cons_of_mem _ hm, h1, h2⟩
-      · rintro (h | ⟨m, hm, h1, h2⟩)
+        · exact Or.inr ⟨m, List.mem_cons_of_mem _ hm, h2⟩
+      · rintro (h | ⟨m, hm, h2⟩)
         · exact Or.inl h
         · rcases List.mem_cons.1 hm with rfl | hm
-          · exact absurd hn' h1
-          · exact Or.inr ⟨m, hm, h1, h2⟩
+          · rw [hg] at h2; cases h2
+          · exact Or.inr ⟨m, hm, h2⟩
+    | some o' =>
+      simp only
+      rw [ih, mem_setAdd]
+      constructor
+      · rintro ((rfl | h) | ⟨m, hm, h2⟩)
+        · exact Or.inr ⟨n, by simp, hg⟩
+        · exact Or.inl h
+        · exact Or.inr ⟨m, List.mem_cons_of_mem _ hm, h2⟩
+      · rintro (h | ⟨m, hm, h2⟩)
+        · exact Or.inl (Or.inr h)
+        · rcases List.mem_cons.1 hm with rfl | hm
+          · rw [hg] at h2; cases h2; exact Or.inl (Or.inl rfl)
+          · exact Or.inr ⟨m, hm, h2⟩
 
-/-- under the invariant a selected owner is a registered collector claiming one of the names -/
+/-- under the invariant a selected owner is a registered collector claiming one of the names, or the
+`_EmptyCollector` standing for configured target info when `target_info` is listed -/
 theorem selected_is_claimant {s : State} (hi : Inv s) {names : List Name} {o : Owner}
     (h : o ∈ selectCollectors s.namesToCollectors names []) :
-    ∃ c ns n, o = Owner.coll c ∧ (c, ns) ∈ s.collectorToNames ∧ n ∈ names ∧ n ≠ tiName ∧ n ∈ ns := by
-  rcases (mem_selectCollectors _ _ _ _).1 h with h | ⟨n, hn, hne, hg⟩
+    (∃ c ns n, o = Owner.coll c ∧ (c, ns) ∈ s.collectorToNames ∧ n ∈ names ∧ n ∈ ns) ∨
+    (o = Owner.empty ∧ tiName ∈ names ∧ truthy s.targetInfo = true) := by
+  rcases (mem_selectCollectors _ _ _ _).1 h with h | ⟨n, hn, hg⟩
   · simp at h
-  · rcases (hi.graph n o).1 (dGet_mem hg) with ⟨c, ns, ho, hm, hnn⟩ | ⟨_, h2, _⟩
-    · exact ⟨c, ns, n, ho, hm, hn, hne, hnn⟩
-    · exact absurd h2 hne
+  · rcases (hi.graph n o).1 (dGet_mem hg) with ⟨c, ns, ho, hm, hnn⟩ | ⟨ho, h2, ht⟩
+    · exact Or.inl ⟨c, ns, n, ho, hm, hn, hnn⟩
+    · exact Or.inr ⟨ho, h2 ▸ hn, ht⟩
 
-/-- under the invariant a registered collector claiming a listed name other than `target_info` is selected -/
+/-- under the invariant a registered collector claiming a listed name is selected -/
 theorem claimant_is_selected {s : State} (hi : Inv s) {names : List Name} {c : Collector} {ns : List Name}
-    {n : Name} (hm : (c, ns) ∈ s.collectorToNames) (hn : n ∈ names) (hne : n ≠ tiName) (hnn : n ∈ ns) :
+    {n : Name} (hm : (c, ns) ∈ s.collectorToNames) (hn : n ∈ names) (hnn : n ∈ ns) :
     Owner.coll c ∈ selectCollectors s.namesToCollectors names [] := by
   rw [mem_selectCollectors]
-  refine Or.inr ⟨n, hn, hne, dGet_of_mem hi.n2cNodup ((hi.graph _ _).2 (Or.inl ⟨c, ns, rfl, hm, hnn⟩))⟩
+  refine Or.inr ⟨n, hn, dGet_of_mem hi.n2cNodup ((hi.graph _ _).2 (Or.inl ⟨c, ns, rfl, hm, hnn⟩))⟩
 
-/-- the selected collectors are, up to order, the registered ones that are selected -/
+/-- the selected owners other than the `_EmptyCollector` are, up to order, the registered collectors that are
+selected -/
 theorem selected_perm {s : State} (hi : Inv s) (names : List Name) :
-    (selectCollectors s.namesToCollectors names []).Perm
+    ((selectCollectors s.namesToCollectors names []).filter (fun o => decide (o ≠ Owner.empty))).Perm
       ((s.collectorToNames.filter
           (fun e => decide (Owner.coll e.1 ∈ selectCollectors s.namesToCollectors names []))).map
         (fun e => Owner.coll e.1)) := by
-  rw [List.perm_ext_iff_of_nodup (selectCollectors_nodup _ _ _ List.nodup_nil)]
+  rw [List.perm_ext_iff_of_nodup
+    ((selectCollectors_nodup _ _ _ List.nodup_nil).sublist List.filter_sublist)]
   · intro o
     simp only [List.mem_map, List.mem_filter, decide_eq_true_eq]
     constructor
-    · intro h
-      obtain ⟨c, ns, _, ho, hm, _⟩ := selected_is_claimant hi h
-      subst ho
-      exact ⟨(c, ns), ⟨hm, h⟩, rfl⟩
-    · rintro ⟨e, ⟨_, h⟩, rfl⟩; exact h
+    · rintro ⟨h, hne⟩
+      rcases selected_is_claimant hi h with ⟨c, ns, _, ho, hm, _⟩ | ⟨ho, _⟩
+      · subst ho
+        exact ⟨(c, ns), ⟨hm, h⟩, rfl⟩
+      · exact absurd ho hne
+    · rintro ⟨e, ⟨_, h⟩, rfl⟩; exact ⟨h, Owner.noConfusion⟩
   · have h1 : ((s.collectorToNames.filter
         (fun e => decide (Owner.coll e.1 ∈ selectCollectors s.namesToCollectors names []))).map Prod.fst).Nodup :=
       hi.c2nNodup.sublist (List.filter_sublist.map Prod.fst)
